@@ -23,9 +23,10 @@ GUARDED = ('starting_trigger', 'archiving_trigger', 'loading_trigger')
 
 
 class Driver:
-    def __init__(self, max_sub, max_data, max_reset):
+    def __init__(self, max_sub, max_data, max_reset, eager=()):
         from . import fsmworld
         self.w = fsmworld.FSMWorld()
+        self.w.eager = frozenset(eager)
         self.max_sub, self.max_data, self.max_reset = max_sub, max_data, max_reset
         self.prios = PRIOS
 
@@ -236,8 +237,9 @@ def drain(dr, report):
 
 
 def job(args):
-    tier, seed, max_sub, max_data, max_reset = args
-    dr = Driver(max_sub, max_data, max_reset)
+    tier, seed, max_sub, max_data, max_reset = args[:5]
+    eager = tuple(args[5]) if len(args) > 5 else ()
+    dr = Driver(max_sub, max_data, max_reset, eager)
     if tier == 'quick':
         dr.prios = ('now', 'todo_empty')
     viol = {}
@@ -255,7 +257,7 @@ def job(args):
     def rec(h):
         def report(sig, what):
             v = viol.setdefault(sig, {'what': what, 'replay': {'history': [list(e) for e in h],
-                                                              'bounds': [max_sub, max_data, max_reset]},
+                                                              'bounds': [max_sub, max_data, max_reset, list(eager)]},
                                       'count': 0})
             v['count'] += 1
         return report
@@ -287,12 +289,12 @@ def job(args):
     res = explore.replay_bfs(expand, k0)
     for sig, what, hist in res['violations']:
         v = viol.setdefault(sig, {'what': what, 'replay': {'history': hist,
-                                                          'bounds': [max_sub, max_data, max_reset]}, 'count': 0})
+                                                          'bounds': [max_sub, max_data, max_reset, list(eager)]}, 'count': 0})
         v['count'] += 1
         if len(hist) < len(v['replay']['history']):
             v['what'], v['replay']['history'] = what, hist
     return {'states': res['states'], 'transitions': res['transitions'], 'probes': res['states'],
-            'violations': viol, 'bounds': [max_sub, max_data, max_reset],
+            'violations': viol, 'bounds': [max_sub, max_data, max_reset, list(eager)],
             'digest': common.digest(sorted(repr(k) for k in res['keys']))}
 
 
@@ -433,6 +435,12 @@ def run(ctx):
     for r in common.pmap(reload_tier, [(ctx.tier, ctx.seed)]):
         ctx.merge(r)
     jobs = [(ctx.tier, ctx.seed, 2, 1, 1)] if ctx.quick() else [(ctx.tier, ctx.seed, 2, 2, 1), (ctx.tier, ctx.seed, 3, 1, 2)]
+    # fast background steps: the body of one kind of step has finished before
+    # the statement after deferToThread runs (a schedule the lazy virtual
+    # threads above cannot produce)
+    for kind in ('_pipeline', '_navel_gaze', '_archive', '_reload'):
+        jobs.append((ctx.tier, ctx.seed, 1 if ctx.quick() else 2, 1, 1, (kind,)))
+    jobs.append((ctx.tier, ctx.seed, 1, 1, 1, ('_pipeline', '_navel_gaze', '_archive', '_reload')))
     states = transitions_n = 0
     per = []
     for r in [job(j) for j in jobs]:
@@ -468,7 +476,7 @@ def replay(data):
     if r.get('tier') == 'reload':
         print('changeset sequence', r['changesets'], '- re-run `bin/check C10` (the reload tier executes all sequences)')
         return 1
-    dr = Driver(*r['bounds'])
+    dr = Driver(*r['bounds'][:3], tuple(r['bounds'][3]) if len(r['bounds']) > 3 else ())
     dr.reset()
     hits = []
     for ev in [tuple(e) for e in r['history']]:
